@@ -182,6 +182,24 @@ Theorem C18_topic_view_spec : forall producers stats_of t,
 Proof. exact topic_view_spec. Qed.
 Print Assumptions C18_topic_view_spec.
 
+(* /api/counter: the rows are, up to order, one (topic:channel:node, message_count) per (answering
+   node, non-null topic, non-null channel) entry, and the handler's map carries under each key the
+   int64 sum of the counts reported under it *)
+Theorem C18_counter_rows : forall ups,
+  Permutation (map row_kv (counter_rows (snd (stats_value ups [])))) (map entry_row_kv (all_entries ups [])).
+Proof. exact counter_rows_entries. Qed.
+Print Assumptions C18_counter_rows.
+
+Theorem C18_counter_sums : forall rows k,
+  (forall r, In r rows -> in_i64 (row_val r)) ->
+  let mine := filter (fun r => bytes_eqb (row_key r) k) rows in
+  match rows_find k (counter_fold rows) with
+  | None => mine = []
+  | Some v => mine <> [] /\ v = w64 (sumZ (map row_val mine))
+  end.
+Proof. exact counter_rows_sum. Qed.
+Print Assumptions C18_counter_sums.
+
 (* ---- the order in which the upstreams answer does not matter (the code merges each answer under
    a lock in the completion order of its fetch goroutines: a permutation of the upstream list) *)
 Theorem C18_order_independent_channels : forall ups ups' sel k, Permutation ups ups' ->
